@@ -238,6 +238,14 @@ def _reset_checks(obs, b, c0, cap, wit):
     b.reset(c0 / 2)
     if abs(battery_state(b)[0] - c0 / 2) > 1e-12 * cap:
         obs.violate("reset_value", f"reset({c0 / 2!r}) left charge {battery_state(b)[0]!r}", **wit)
+    # a reset to exactly the capacity (a car that arrives full) is within the documented domain (refused only ABOVE capacity)
+    try:
+        b.reset(cap)
+        if abs(battery_state(b)[0] - cap) > 1e-12 * cap:
+            obs.violate("reset_value", f"reset(capacity) left charge {battery_state(b)[0]!r}", **wit)
+    except Exception as e_:
+        obs.violate("reset_to_capacity_refused", f"reset({cap!r}) with capacity {cap!r}: {type(e_).__name__}: {e_}", **wit)
+    b.reset(c0 / 2)
     # reset to an explicit charge, use the battery, then a plain reset(): the construction-time initial state comes back
     b.charge(16, 208, 5)
     b.reset()
